@@ -77,6 +77,64 @@ theorem str_lt_of_not_lt_of_ne (a b : Str) (h : ¬ a < b) (hne : a ≠ b) : b < 
   · exact h
   · exact absurd h.symm hne
 
+/-! ### sets: sorting the element texts forgets the iteration order -/
+
+theorem str_eq_of_not_lt (a b : Str) (h₁ : ¬ a < b) (h₂ : ¬ b < a) : a = b := by
+  by_cases hne : a = b
+  · exact hne
+  · exact absurd (str_lt_of_not_lt_of_ne a b h₁ hne) h₂
+
+theorem insStr_comm (a b : Str) (l : List Str) : insStr a (insStr b l) = insStr b (insStr a l) := by
+  induction l with
+  | nil =>
+    simp only [insStr]
+    by_cases hab : a < b
+    · have hba : ¬ b < a := fun h => absurd (List.lt_trans hab h) (List.lt_irrefl _)
+      simp [hab, hba, insStr]
+    · by_cases hba : b < a
+      · simp [hab, hba, insStr]
+      · have : a = b := str_eq_of_not_lt a b hab hba
+        subst this; rfl
+  | cons x r ih =>
+    simp only [insStr]
+    by_cases hbx : b < x <;> by_cases hax : a < x
+    · -- both go in front of x
+      simp only [hbx, hax, if_true, insStr]
+      by_cases hab : a < b
+      · have hba : ¬ b < a := fun h => absurd (List.lt_trans hab h) (List.lt_irrefl _)
+        simp [hab, hba, hbx, insStr]
+      · by_cases hba : b < a
+        · simp [hab, hba, hax, insStr]
+        · have : a = b := str_eq_of_not_lt a b hab hba
+          subst this; simp
+    · -- b before x, a not
+      have hab : ¬ a < b := fun h => hax (List.lt_trans h hbx)
+      simp [hbx, hax, hab, insStr]
+    · -- a before x, b not
+      have hba : ¬ b < a := fun h => hbx (List.lt_trans h hax)
+      simp [hbx, hax, hba, insStr]
+    · simp [hbx, hax, insStr, ih]
+
+theorem sortStr_perm_eq (l₁ l₂ : List Str) (hp : l₁ ~ l₂) : sortStr l₁ = sortStr l₂ := by
+  unfold sortStr
+  induction hp with
+  | nil => rfl
+  | cons x _ ih => simp [ih]
+  | swap x y l => simp only [List.foldr_cons]; exact insStr_comm y x _
+  | trans _ _ ih₁ ih₂ => exact ih₁.trans ih₂
+
+theorem fmtList_eq_map (l : List PyVal) : fmtList l = l.map fmtField := by
+  induction l with
+  | nil => rfl
+  | cons v r ih => simp [fmtList, ih]
+
+theorem set_text_perm (l₁ l₂ : List PyVal) (hp : l₁ ~ l₂) :
+    typeFmt (.set l₁) = typeFmt (.set l₂) ∧ fmtField (.set l₁) = fmtField (.set l₂) := by
+  have h : sortStr (fmtList l₁) = sortStr (fmtList l₂) := by
+    rw [fmtList_eq_map, fmtList_eq_map]
+    exact sortStr_perm_eq _ _ (hp.map _)
+  simp [typeFmt, fmtField, h]
+
 theorem insKey_sorted (e : Str × Str) (l : List (Str × Str))
     (hs : l.Pairwise (fun a b => a.1 < b.1)) (hne : ∀ x ∈ l, x.1 ≠ e.1) :
     (insKey e l).Pairwise (fun a b => a.1 < b.1) := by
